@@ -32,3 +32,10 @@ def temporal_mean_overflow(sub, case, v):
         return False
     s = sum(vs["vals"][p] for p in ps if vs["vals"][p] is not None)
     return abs(s) > 2**63 - 1
+
+
+@predicate("ema-alpha-decays-on-masked-rows")
+def ema_alpha_masked(sub, case, v):
+    """GroupBy.ema(alpha=/halflife=, no times) applies the per-row decay on masked rows too, so with an unselected
+    row between two selected rows of one group the result differs from the run on the pre-filtered data."""
+    return v.kind == "rel1:ema:row" and case.get("op") == "ema" and "times" not in case.get("kw", {}) and bool(v.extra.get("ema_gap"))
